@@ -61,7 +61,9 @@ func gen(t *rapid.T) Case {
 	for k := range o.Avoid {
 		vh.Excluded(k)
 	}
-	return Case{Mod: progen.Gen(t, o), R: r}
+	mod := progen.Gen(t, o)
+	r.GenIfaceData(t, &mod)
+	return Case{Mod: mod, R: r}
 }
 
 var diagRe = regexp.MustCompile(`(?m)^(?:vet: )?(\S+\.go):(\d+):(\d+): (.*)$`)
